@@ -42,7 +42,7 @@ PROPS["C14"] = {
             "prefixed, containing offset/runid/version, upper-cased, trailing '-'), near-miss field names, shuffled order, 5% with repeated fields; "
             "load: targets of 0-5 (every 15th: 0-40) dbs with own + related sources' checkpoints, partial and old-version ones, data-only dbs, "
             "non-numeric / out-of-range / tied offsets, served INFO text checked against the Lean MiniRedis rendering, 8% malformed INFO, 8% an injected "
-            "error reply in the scan phase; compared: (runid, offset, db, ok|err|panic) and the whole target afterwards; "
+            "error reply in the scan phase, every 4th load also with the k-th select / hdel of the clearing phase refused (all outcomes the map order allows are listed: any k-1 stale dbs cleared, the newest checkpoint untouched); compared: (runid, offset, db, ok|err|panic) and the whole target afterwards; "
             "writer: the real sender writes 1-4 groups into a target that already holds older checkpoints, then the real loader reads them back. "
             "non-trivial = every case except loads of an empty target and fetches of an empty hash; distinct by case text",
     "equal": _equal,
